@@ -6,6 +6,7 @@ use in_toto::verifylib::in_toto_verify;
 use serde_json::json;
 
 pub fn run(r: &mut Report) {
+    crate::c01::signature_value_shapes(r);
     let owner = key(1);
     let ka = key(2);
     let kb = key(3);
